@@ -3,7 +3,7 @@
 tier=$1; shift
 cd "$(dirname "$0")/.."
 for s in "$@"; do
-  for i in $(seq -w 1 20); do
+  for i in ${SWEEP_IDS:-$(seq -w 1 20)}; do
     c=C$i
     t0=$(date +%s)
     VERIF_SEED=$s ./check $c --tier $tier > /var/tmp/sweep_${c}_${s}.log 2>&1; rc=$?
